@@ -58,10 +58,13 @@ def elem(dtype, v):
     return v if z3.is_expr(v) else z3.BoolVal(v)
 
 
-class PA(Sym):
+class PA(SObj):
     """evaluable.Array with a positional dense meaning."""
 
     def __init__(self, dims, at, dtype=INT, name='a', unaligned=None, form=None, attrs=None, classes=('Array',)):
+        self.clsname = classes[0]
+        self.methods = {}
+        self._truthy = True
         self.dims = tuple(zi(d) for d in dims)
         self._at = at
         self.dtype = dtype
@@ -108,6 +111,11 @@ class PA(Sym):
             return Builtin(self.dtype)
         if name == '_unaligned':
             return self.unaligned if self.unaligned is not None else (self, tuple(range(self.ndim)))
+        if name in ('_assparse', 'super()._assparse'):
+            # an array without declared chunks: the default rule (real body of Array._assparse), a valid denotation of any array
+            from pyvc import extract
+            v = self.attrs[name] = ctx.interp.call_function(extract.get('evaluable:Array._assparse').node, (self,), {})
+            return v
         raise Unsupported('attribute %s of an array model' % name)
 
     def isinstance_(self, ctx, types):
@@ -527,3 +535,58 @@ def scatter(chunks, ndim, dtype=FLOAT):
                 r = r + z3.If(hit, elem(dtype, val.at(p)), elem(dtype, 0))
         return r
     return at
+
+
+# ------------------------------------------------------------------ polynomial normal form (products of symbolic reals)
+
+def poly(t):
+    """Expand a real term built from + - * If numerals and atoms (uninterpreted reals) into  {monomial: [(guard, weight)]}:
+    the term equals  sum over monomials m of  (sum_i If(guard_i, weight_i, 0)) * prod(m).  Distributivity is applied here, so
+    that the solver only has to compare the integer/rational indicator coefficients (linear arithmetic over the index conditions)."""
+    from fractions import Fraction
+    k = t.decl().kind()
+    if z3.is_rational_value(t) or z3.is_int_value(t):
+        w = Fraction(t.numerator_as_long(), t.denominator_as_long()) if z3.is_rational_value(t) else Fraction(t.as_long())
+        return {(): [(z3.BoolVal(True), w)]} if w else {}
+    if k == z3.Z3_OP_ADD:
+        out = {}
+        for c in t.children():
+            for m, gs in poly(c).items():
+                out.setdefault(m, []).extend(gs)
+        return out
+    if k == z3.Z3_OP_SUB and t.num_args() == 2:
+        out = {m: list(gs) for m, gs in poly(t.arg(0)).items()}
+        for m, gs in poly(t.arg(1)).items():
+            out.setdefault(m, []).extend((g, -w) for g, w in gs)
+        return out
+    if k == z3.Z3_OP_UMINUS:
+        return {m: [(g, -w) for g, w in gs] for m, gs in poly(t.arg(0)).items()}
+    if k == z3.Z3_OP_MUL:
+        acc = {(): [(z3.BoolVal(True), Fraction(1))]}
+        for c in t.children():
+            pc, new = poly(c), {}
+            for m1, g1 in acc.items():
+                for m2, g2 in pc.items():
+                    m = tuple(sorted(m1 + m2, key=str))
+                    new.setdefault(m, []).extend((z3.And(a, b), wa * wb) for a, wa in g1 for b, wb in g2)
+            acc = new
+        return acc
+    if k == z3.Z3_OP_ITE:
+        c = t.arg(0)
+        out = {m: [(z3.And(c, g), w) for g, w in gs] for m, gs in poly(t.arg(1)).items()}
+        for m, gs in poly(t.arg(2)).items():
+            out.setdefault(m, []).extend((z3.And(z3.Not(c), g), w) for g, w in gs)
+        return out
+    if k == z3.Z3_OP_UNINTERPRETED and t.sort() == z3.RealSort():
+        return {(t,): [(z3.BoolVal(True), Fraction(1))]}
+    raise Unsupported('polynomial normal form of %s' % t.decl().name())
+
+
+def poly_equal(lhs, rhs):
+    """Sufficient condition for lhs == rhs (reals): every monomial has the same indicator coefficient on both sides."""
+    pl, pr = poly(lhs), poly(rhs)
+    keys = {tuple(str(a) for a in m): m for m in list(pl) + list(pr)}
+    byname = lambda p: {tuple(str(a) for a in m): gs for m, gs in p.items()}
+    pl, pr = byname(pl), byname(pr)
+    coeff = lambda gs: z3.Sum([z3.If(g, z3.RealVal(str(w)), z3.RealVal(0)) for g, w in gs]) if gs else z3.RealVal(0)
+    return z3.And(*[coeff(pl.get(k, [])) == coeff(pr.get(k, [])) for k in sorted(keys)]) if keys else z3.BoolVal(True)
